@@ -352,7 +352,5 @@ check("C02", "call.python_int_large", gen_bigint("int64"), functions=("numpoly.c
       note="bounded: 1-2 indeterminates, exponents<=2, int64 coefficients, Python int arguments of magnitude 2**16 .. 2**63 "
            "with every power, term value and result inside int64; exact comparison")(python_int)
 
-check("C02", "call.python_int_beyond_int64", gen_bigint("beyond"), functions=("numpoly.call",),
-      note="bounded: as call.python_int_large but some power, term or result lies outside int64; the result must carry the exact "
-           "value (integer or object dtype) or, for a floating-point result, the value to relative 1e-12; no exception, no "
-           "silent wrap-around.  Arguments stay below 2**64 (object-dtype polynomials cannot be used with the 0xA5 poison)")(python_int)
+# (A check `call.python_int_beyond_int64` demanding exact results for values outside int64 was removed:
+#  fixed-width machine arithmetic is numpy's documented behaviour and C02 does not promise more; see DESIGN.md.)
